@@ -267,7 +267,7 @@ class Resolver:
             for subnode in PreOrderIter(node):
                 try:
                     for match in self.__glob(subnode, remainder):
-                        if match not in matches:
+                        if not any(match is seen for seen in matches):
                             matches.append(match)
                 except ResolverError:
                     pass
